@@ -128,6 +128,8 @@ pub fn datasets(quick: bool) -> Vec<Dataset> {
         Dataset { alpha: "dna", seqs: vec![vec![0, 0, 1, 1, 0], vec![3, 3, 3, 3, 3], vec![4, 2, 4, 0, 4, 1]], width: 2, pad: None, pre_wrap: None, spare: 0 },
         // padding cells of the striped rows hold A, not the wildcard (StripedSequence::new / ::sample build such sequences)
         Dataset { alpha: "dna", seqs: vec![vec![0, 1, 2, 3, 0], vec![3, 3, 1, 0, 2, 2], vec![2, 4, 0, 1, 1]], width: 2, pad: Some(0), pre_wrap: None, spare: 0 },
+        // the same for protein sequences (scored by another AVX2 kernel than DNA)
+        Dataset { alpha: "protein", seqs: vec![vec![0, 5, 9, 20, 3], vec![9, 9, 0, 17], vec![19, 18, 0, 5, 9, 9]], width: 2, pad: Some(0), pre_wrap: None, spare: 0 },
         // sequence objects that were configured for a narrower motif before (a second sampler run on the same data)
         Dataset { alpha: "dna", seqs: vec![vec![0, 1, 2, 3], vec![1, 1, 1, 1, 2], vec![3, 0, 3, 0, 4, 1], vec![2, 2, 0, 1]], width: 3, pad: None, pre_wrap: Some(1), spare: 0 },
         // hand-built striped sequences with 2 spare sequence rows
